@@ -40,6 +40,9 @@ pub enum Op {
   Materialize,
   /// materialize().dematerialize()
   MatDemat,
+  /// `.map(to Material).dematerialize()`: an item equal to `.0` becomes an in-band Complete, an item
+  /// equal to `.1` an in-band Error(40+item); every other item Next(item) - the notification stream goes on afterwards
+  DematInBand(i64, i64),
   // ---- higher order (direct form only in last position; Flat = .flat_map(|w| w))
   Window(usize),
   GroupByParity,
@@ -109,7 +112,7 @@ impl Op {
       Op::DefaultIfEmpty(_) => "default_if_empty",
       Op::Buffer(_) => "buffer_with_count",
       Op::Materialize => "materialize",
-      Op::MatDemat => "dematerialize",
+      Op::MatDemat | Op::DematInBand(..) => "dematerialize",
       Op::Window(_) | Op::WindowFlat(_) => "window_with_count",
       Op::GroupByParity | Op::GroupByParityFlat => "group_by",
       Op::Retry(_) => "retry",
@@ -419,6 +422,21 @@ pub fn build_typed(n: &Node, env: &Env) -> Built {
     Op::Buffer(k) => Built::VecV(src.buffer_with_count(*k)),
     Op::Materialize => Built::Mat(src.materialize()),
     Op::MatDemat => Built::V(src.materialize().dematerialize()),
+    Op::DematInBand(c, e) => {
+      let (c, e) = (*c, *e);
+      Built::V(
+        src
+          .map(move |x: V| {
+            let _ = &t;
+            match x.d {
+              D::I(k) if k == c => Material::Complete,
+              D::I(k) if k == e => Material::Error(err(40 + k)),
+              _ => Material::Next(x),
+            }
+          })
+          .dematerialize(),
+      )
+    }
     Op::Window(k) => Built::Nested(src.window_with_count(*k)),
     Op::WindowFlat(k) => Built::V(src.window_with_count(*k).flat_map(|w| w)),
     Op::GroupByParity => Built::Nested(src.group_by(move |x: V| {
